@@ -879,8 +879,9 @@ type mpath struct {
 }
 
 // casePath runs what a query does with one stored column: per source row, read the file row
-// into a buffer of its own, rowMerger's Merge with the memstore column (the stored sequence
-// itself), SubMerge into the out tree's sequence; then ValueAtTime (flatten).
+// into a buffer of its own, rowMerger's Merge with the memstore column (a sequence of the scan's
+// memstore snapshot; before /repo 63b81da the stored sequence itself — either way an operand that
+// nothing may write), SubMerge into the out tree's sequence; then ValueAtTime (flatten).
 func (c *caseCtx) casePath(r *hk.Rng) error {
 	su := genSub(r, 1)
 	if su == nil {
